@@ -44,6 +44,9 @@ def Err.name : Err → String
 
 abbrev R := Except Err
 
+/-- `if c { return err }` -/
+def failIf (c : Prop) [Decidable c] (e : Err) : R Unit := if c then throw e else pure ()
+
 /-- virtio_net_hdr as decoded by `Hdr.Decode`. -/
 structure Hdr where
   flags : Nat
@@ -88,9 +91,6 @@ def rd16 (p : List UInt8) (off : Nat) : R Nat :=
 def rd32 (p : List UInt8) (off : Nat) : R Nat :=
   if off + 4 ≤ p.length then pure (be16 p off * 65536 + be16 p (off + 2)) else throw .panic
 
-/-- `binary.BigEndian.PutUint16(b[off:off+2], v)` on an in-range field. -/
-def set16 (b : List UInt8) (off v : Nat) : List UInt8 := b.take off ++ put16 v ++ b.drop (off + 2)
-
 /-- `binary.BigEndian.PutUint32(b[off:off+4], v)`. -/
 def set32 (b : List UInt8) (off v : Nat) : List UInt8 :=
   set16 (set16 b off (v / 65536 % 65536)) (off + 2) (v % 65536)
@@ -101,20 +101,20 @@ def set8 (b : List UInt8) (off v : Nat) : List UInt8 := b.take off ++ [UInt8.ofN
 /-! ### CheckValid / CorrectHdrLen / protoFromGSOType -/
 
 def checkValid (pkt : List UInt8) (h : Hdr) : R Unit := do
-  if h.flags / F_RSC_INFO % 2 = 1 then throw .rscInfo
-  if pkt.length < virtio_ipv4HeaderMinLen then throw .tooShort
+  failIf (h.flags / F_RSC_INFO % 2 = 1) .rscInfo
+  failIf (pkt.length < virtio_ipv4HeaderMinLen) .tooShort
   let b0 ← rd pkt 0
   let ver := b0 / 16
-  if ver = 6 ∧ pkt.length < virtio_ipv6FixedLen then throw .tooShort
+  failIf (ver = 6 ∧ pkt.length < virtio_ipv6FixedLen) .tooShort
   let g := h.gso
-  if g ≠ GSO_NONE ∧ h.gsoSize = 0 then throw .gsoZero
-  if h.hasECN ∧ ¬(g = GSO_TCPV4 ∨ g = GSO_TCPV6) then throw .ecn
+  failIf (g ≠ GSO_NONE ∧ h.gsoSize = 0) .gsoZero
+  failIf (h.hasECN ∧ ¬(g = GSO_TCPV4 ∨ g = GSO_TCPV6)) .ecn
   if g = GSO_TCPV4 then
-    if ver ≠ 4 then throw .version
+    failIf (ver ≠ 4) .version
   else if g = GSO_TCPV6 then
-    if ver ≠ 6 then throw .version
+    failIf (ver ≠ 6) .version
   else
-    if ¬(ver = 4 ∨ ver = 6) then throw .version
+    failIf (¬(ver = 4 ∨ ver = 6)) .version
 
 /-- returns the corrected `HdrLen`. All additions are `uint16` additions. -/
 def correctHdrLen (pkt : List UInt8) (h : Hdr) : R Nat := do
@@ -122,15 +122,15 @@ def correctHdrLen (pkt : List UInt8) (h : Hdr) : R Nat := do
     if h.gso = GSO_UDP_L4 then pure ((h.csumStart + 8) % 65536)
     else do
       let idx := (h.csumStart + virtio_tcpDataOffOff) % 65536
-      if pkt.length ≤ idx then throw .tcpShort
+      failIf (pkt.length ≤ idx) .tcpShort
       let d ← rd pkt idx
       let tcpHLen := d / 16 * 4
-      if tcpHLen < virtio_tcpHeaderMinLen ∨ tcpHLen > virtio_tcpHeaderMaxLen then throw .tcpHLen
+      failIf (tcpHLen < virtio_tcpHeaderMinLen ∨ tcpHLen > virtio_tcpHeaderMaxLen) .tcpHLen
       pure ((h.csumStart + tcpHLen) % 65536)
-  if pkt.length < hdrLen then throw .lenLtHdrLen
-  if hdrLen < h.csumStart then throw .hdrLtCsum
+  failIf (pkt.length < hdrLen) .lenLtHdrLen
+  failIf (hdrLen < h.csumStart) .hdrLtCsum
   let cSumAt := (h.csumStart + h.csumOffset) % 65536
-  if cSumAt + 1 ≥ pkt.length then throw .csumOff
+  failIf (cSumAt + 1 ≥ pkt.length) .csumOff
   pure hdrLen
 
 inductive Proto where
@@ -164,12 +164,20 @@ def basePseudoSum (pkt : List UInt8) (isV4 : Bool) (proto : Nat) : R Nat := do
 def baseIPv4HdrSum (pkt : List UInt8) (csumStart : Nat) : R Nat := do
   let b0 ← rd pkt 0
   let ihl := b0 % 16 * 4
-  if ihl < virtio_ipv4HeaderMinLen ∨ ihl > csumStart then throw .ihl
+  failIf (ihl < virtio_ipv4HeaderMinLen ∨ ihl > csumStart) .ihl
   let hdr ← slice pkt 0 ihl
   let tl ← rd16 pkt virtio_ipv4TotalLenOff
   let ck ← rd16 pkt virtio_ipv4ChecksumOff
   let id ← rd16 pkt virtio_ipv4IDOff
   pure (fold2 ((checksum hdr 0 + compl16 tl + compl16 ck + compl16 id) % 4294967296))
+
+/-- IPv4 only: the original ID and the base header sum (`origIPID`, `baseIPHdrSum`; zero for IPv6). -/
+def ipBase (pkt : List UInt8) (isV4 : Bool) (csumStart : Nat) : R (Nat × Nat) :=
+  if isV4 then do
+    let id ← rd16 pkt virtio_ipv4IDOff
+    let s ← baseIPv4HdrSum pkt csumStart
+    pure (id, s)
+  else pure (0, 0)
 
 def baseTCPHdrSum (pkt : List UInt8) (csumStart headerLen : Nat) : R Nat := do
   let seq ← rd32 pkt (csumStart + virtio_tcpSeqOff)
@@ -235,9 +243,9 @@ def tcpSeg (c : TcpCtx) (pkt : List UInt8) (i : Nat) : List UInt8 :=
   set16 seg (c.csumStart + virtio_tcpChecksumOff) (foldComplement (wide % 4294967296))
 
 def segmentTCP (pkt : List UInt8) (hdrLen csumStart gsoSize : Nat) : R (List (List UInt8)) := do
-  if gsoSize = 0 then throw .segGsoZero
-  if csumStart = 0 then throw .segCsumZero
-  if hdrLen > virtio_maxSegHdrLen then throw .hdrTooLong
+  failIf (gsoSize = 0) .segGsoZero
+  failIf (csumStart = 0) .segCsumZero
+  failIf (hdrLen > virtio_maxSegHdrLen) .hdrTooLong
   let b0 ← rd pkt 0
   let isV4 := b0 / 16 = 4
   let d ← rd pkt (csumStart + virtio_tcpDataOffOff)
@@ -246,17 +254,12 @@ def segmentTCP (pkt : List UInt8) (hdrLen csumStart gsoSize : Nat) : R (List (Li
   let origFlags ← rd pkt (csumStart + virtio_tcpFlagsOff)
   let baseProto ← basePseudoSum pkt isV4 IPPROTO_TCP
   let baseTcp ← baseTCPHdrSum pkt csumStart hdrLen
-  let (origID, baseIP) ←
-    if isV4 then do
-      let id ← rd16 pkt virtio_ipv4IDOff
-      let s ← baseIPv4HdrSum pkt csumStart
-      pure (id, s)
-    else pure (0, 0)
+  let ipb ← ipBase pkt isV4 csumStart
   let saved ← slice pkt 0 hdrLen
-  if csumStart + virtio_tcpChecksumOff + 2 > hdrLen then throw .precond
+  failIf (csumStart + virtio_tcpChecksumOff + 2 > hdrLen) .precond
   let numSeg := segCount (pkt.length - hdrLen) gsoSize
   let c : TcpCtx := { saved, hdrLen, csumStart, g := gsoSize, isV4, tcpHdrLen, numSeg, origSeq,
-                      origFlags, baseProto, baseTcp, origID, baseIP }
+                      origFlags, baseProto, baseTcp, origID := ipb.1, baseIP := ipb.2 }
   pure ((List.range numSeg).map (tcpSeg c pkt))
 
 structure UdpCtx where
@@ -283,23 +286,18 @@ def udpSeg (c : UdpCtx) (pkt : List UInt8) (i : Nat) : List UInt8 :=
   set16 seg (c.csumStart + virtio_udpChecksumOff) csum
 
 def segmentUDP (pkt : List UInt8) (hdrLen csumStart gsoSize : Nat) : R (List (List UInt8)) := do
-  if gsoSize = 0 then throw .segGsoZero
-  if csumStart = 0 then throw .segCsumZero
+  failIf (gsoSize = 0) .segGsoZero
+  failIf (csumStart = 0) .segCsumZero
   let b0 ← rd pkt 0
   let isV4 := b0 / 16 = 4
-  if hdrLen > virtio_maxSegHdrLen then throw .hdrTooLong
+  failIf (hdrLen > virtio_maxSegHdrLen) .hdrTooLong
   -- `headerLen-csumStart != udpHeaderLen` on Go ints
-  if (hdrLen : Int) - csumStart ≠ virtio_udpHeaderLen then throw .udpHdrLen
+  failIf ((hdrLen : Int) - csumStart ≠ virtio_udpHeaderLen) .udpHdrLen
   let baseProto ← basePseudoSum pkt isV4 IPPROTO_UDP
-  let (origID, baseIP) ←
-    if isV4 then do
-      let id ← rd16 pkt virtio_ipv4IDOff
-      let s ← baseIPv4HdrSum pkt csumStart
-      pure (id, s)
-    else pure (0, 0)
+  let ipb ← ipBase pkt isV4 csumStart
   let saved ← slice pkt 0 hdrLen
   let numSeg := segCount (pkt.length - hdrLen) gsoSize
-  let c : UdpCtx := { saved, hdrLen, csumStart, g := gsoSize, isV4, baseProto, origID, baseIP }
+  let c : UdpCtx := { saved, hdrLen, csumStart, g := gsoSize, isV4, baseProto, origID := ipb.1, baseIP := ipb.2 }
   pure ((List.range numSeg).map (udpSeg c pkt))
 
 /-! ### FinishChecksum (non-GSO packet with NEEDS_CSUM) -/
@@ -307,7 +305,7 @@ def segmentUDP (pkt : List UInt8) (hdrLen csumStart gsoSize : Nat) : R (List (Li
 def finishChecksum (seg : List UInt8) (h : Hdr) : R (List UInt8) := do
   let cs := h.csumStart
   let co := h.csumOffset
-  if cs + co + 2 > seg.length then throw .finishRange
+  failIf (cs + co + 2 > seg.length) .finishRange
   let part := be16 seg (cs + co)
   let seg := set16 seg (cs + co) 0
   let csum := compl16 (checksum (seg.drop cs) part)
@@ -319,7 +317,7 @@ def finishChecksum (seg : List UInt8) (h : Hdr) : R (List UInt8) := do
 /-- What the reader hands to the rest of nebula for one tun read: the list of IP packets after
 `decodeRead` and `SegmentSuperpacket`. -/
 def readAndSegment (h : Hdr) (pkt : List UInt8) : R (List (List UInt8)) := do
-  if pkt.length = 0 then throw .shortRead
+  failIf (pkt.length = 0) .shortRead
   if h.gso = GSO_NONE then
     if h.flags % 2 = F_NEEDS_CSUM then
       let p ← finishChecksum pkt h
